@@ -45,6 +45,32 @@ namespace bloch::runtime {
 
     static constexpr bool kTraceConstructors = false;
 
+    namespace {
+        // Registers an argument vector (or an object) as a collector root for the lifetime of
+        // the guard, also when evaluation leaves by exception.
+        struct PendingArgsGuard {
+            std::vector<const std::vector<Value>*>& list;
+            PendingArgsGuard(std::vector<const std::vector<Value>*>& l, const std::vector<Value>* v)
+                : list(l) {
+                list.push_back(v);
+            }
+            ~PendingArgsGuard() { list.pop_back(); }
+            PendingArgsGuard(const PendingArgsGuard&) = delete;
+            PendingArgsGuard& operator=(const PendingArgsGuard&) = delete;
+        };
+        struct PendingObjectGuard {
+            std::vector<std::shared_ptr<Object>>& list;
+            PendingObjectGuard(std::vector<std::shared_ptr<Object>>& l,
+                               const std::shared_ptr<Object>& o)
+                : list(l) {
+                list.push_back(o);
+            }
+            ~PendingObjectGuard() { list.pop_back(); }
+            PendingObjectGuard(const PendingObjectGuard&) = delete;
+            PendingObjectGuard& operator=(const PendingObjectGuard&) = delete;
+        };
+    }  // namespace
+
     static std::pair<RuntimeField*, RuntimeClass*> findStaticFieldWithOwner(
         RuntimeClass* cls, const std::string& name) {
         RuntimeClass* cur = cls;
@@ -528,6 +554,8 @@ namespace bloch::runtime {
         m_hasReturn = false;
         m_classTable.clear();
         m_heap.clear();
+        m_pendingArgs.clear();
+        m_pendingObjects.clear();
         m_currentClassCtx = nullptr;
         m_inStaticContext = false;
         m_inConstructor = false;
@@ -1340,6 +1368,13 @@ namespace bloch::runtime {
             for (const auto& v : cls->staticStorage) markValue(v);
         }
         markValue(m_returnValue);
+        // Arguments already evaluated for a call that has not started yet, and objects whose
+        // constructor has not started yet, are referenced from C++ temporaries only.
+        for (const auto* pending : m_pendingArgs) {
+            if (pending)
+                for (const auto& v : *pending) markValue(v);
+        }
+        for (const auto& obj : m_pendingObjects) markObject(obj);
         // Sweep unmarked non-tracked objects
         std::vector<std::shared_ptr<Object>> unreachable;
         for (auto& obj : objects) {
@@ -1518,6 +1553,7 @@ namespace bloch::runtime {
 
         // Detect an explicit super(...) call as the first statement.
         std::vector<Value> superArgs;
+        PendingArgsGuard superArgsRoot(m_pendingArgs, &superArgs);
         ConstructorDeclaration* superCtorDecl = nullptr;
         bool hasExplicitSuper = false;
         if (ctor && ctor->body && !ctor->body->statements.empty()) {
@@ -2378,6 +2414,8 @@ namespace bloch::runtime {
                 m_heap.push_back(obj);
             }
             std::vector<Value> args;
+            PendingArgsGuard argsRoot(m_pendingArgs, &args);
+            PendingObjectGuard objRoot(m_pendingObjects, obj);
             for (auto& a : newExpr->arguments) args.push_back(eval(a.get()));
             ConstructorDeclaration* ctorDecl = nullptr;
             bool matchedCtor = false;
@@ -2831,6 +2869,7 @@ namespace bloch::runtime {
                 auto name = var->name;
                 auto builtin = builtInGates.find(name);
                 std::vector<Value> args;
+                PendingArgsGuard argsRoot(m_pendingArgs, &args);
                 for (auto& a : callExpr->arguments) args.push_back(eval(a.get()));
                 if (builtin != builtInGates.end()) {
                     // Map built-ins directly to simulator operations.
@@ -2891,6 +2930,7 @@ namespace bloch::runtime {
             } else if (auto member =
                            dynamic_cast<MemberAccessExpression*>(callExpr->callee.get())) {
                 std::vector<Value> args;
+                PendingArgsGuard argsRoot(m_pendingArgs, &args);
                 for (auto& a : callExpr->arguments) args.push_back(eval(a.get()));
                 Value target = eval(member->object.get());
                 if (isNullReference(target)) {
